@@ -459,13 +459,24 @@ def check_meta(a):
     return vs
 
 
+MDL_LIKE_LINES = ('M  END', 'M  END of the parent structure', 'M  CHG  1   1   1', 'M  V30 END CTAB', 'Molecular weight 46.07', 'M', '  1  2  1  0')
+
+
 def w_meta(items):
     env.setup()
     import random
     from oracles import o11_records as O
     n, keys, samples, vs = 0, [], [], []
     for cls, seed in items:
-        if cls == 'fixed-punct':    # seed-independent: every punctuation character once in a key, in a title, inside a value
+        if cls == 'fixed-mdl-like':    # seed-independent: value lines that look like connection-table lines (legal in a data field: only '>', '$$$$' and a
+            # blank line are special there); first / middle / last line of the value, and as the only field or between two others
+            text = MDL_LIKE_LINES[seed // 6]
+            pos, many = seed % 3, (seed // 3) % 2
+            lines = ['alpha', 'beta']
+            lines.insert(pos, text)
+            meta = {'first': 'one', 'field': '\n'.join(lines), 'last': 'two'} if many else {'field': '\n'.join(lines)}
+            title = 'title'
+        elif cls == 'fixed-punct':    # seed-independent: every punctuation character once in a key, in a title, inside a value
             import string
             ch, pos = string.punctuation[seed // 3], seed % 3
             meta, title = ({f'k{ch}y': 'value'}, 'title') if pos == 0 else ({'key': 'value'}, f't{ch}z') if pos == 1 else ({'key': f'v{ch}w\nx{ch}'}, 'title')
@@ -1549,10 +1560,11 @@ def bounded(run):
 
     # 3. titles / metadata
     n_meta = 12 if quick else 200
-    mt = [(cls, i) for cls in O.META_CLASSES + ('title-punct',) for i in range(n_meta)] + [('fixed-punct', i) for i in range(3 * 32)]
+    mt = [(cls, i) for cls in O.META_CLASSES + ('title-punct',) for i in range(n_meta)] + [('fixed-punct', i) for i in range(3 * 32)] + [('fixed-mdl-like', i) for i in range(6 * len(MDL_LIKE_LINES))]
     for c in chunks(mt, 8):
         tasks.append((w_meta, c))
-    run.bound(f'titles/metadata: {len(O.META_CLASSES) + 1} classes of printable ASCII text x {n_meta} seeded cases x 5 pairs x {{molecule, reaction}}; '
+    run.bound(f'titles/metadata: {len(MDL_LIKE_LINES)} value lines that look like connection-table lines (M  END, M  CHG ..., leading M) x 3 positions x single / several fields; '
+              f'{len(O.META_CLASSES) + 1} classes of printable ASCII text x {n_meta} seeded cases x 5 pairs x {{molecule, reaction}}; '
               f'value lines never start with a tag character of the MDL formats ($, >, M); '
               f'seed-independent: each of the 32 ASCII punctuation characters once in a key, in a title, inside a value')
 
